@@ -12,6 +12,8 @@ package PKG
 //            unique tx) was received too.  obsvReqC is unbuffered and the router is one goroutine, so the
 //            sentinel can only be received when the router is back in its select, i.e. when the previous
 //            request has been processed completely.  No sleeps are used as synchronisation.
+//            With "sync":"idle" nothing is sent after the request (a sentinel would become "the previous request" of the
+//            next one): the harness waits until the router goroutine is parked in its select again (waitIdle).
 //   Advance  mock.Add returned, the ticker's channel is empty (the router took every tick that Add left
 //            there) and a final sentinel was received (the purge body has finished).
 //   Drain    the harness took one request from a watcher queue (it is the only consumer).
@@ -111,6 +113,8 @@ type vrRun struct {
 	names    map[string]vaa.ChainID
 	outC     chan *gossipv1.ObservationRequest
 	died     chan string
+	gid      chan string // id of the router goroutine
+	stackBuf []byte
 	deadline time.Duration
 	sentinel int
 	lines    []vrLine
@@ -176,6 +180,48 @@ func (r *vrRun) sync() string {
 	return r.send(&gossipv1.ObservationRequest{ChainId: ch, TxHash: tx})
 }
 
+// vrGoID returns the id of the calling goroutine ("goroutine 123 [running]:").
+func vrGoID() string {
+	buf := make([]byte, 64)
+	f := strings.Fields(string(buf[:runtime.Stack(buf, false)]))
+	if len(f) < 2 {
+		return ""
+	}
+	return f[1]
+}
+
+// waitIdle is the rendezvous that does not put anything on the request channel: it waits until the router goroutine is
+// parked in a select again.  obsvReqC is unbuffered and the harness sends nothing meanwhile, the only select of the
+// router that can park is the one at the top of its loop (the send to a watcher queue has a default branch), and a
+// goroutine that was handed a value is runnable/running, not "select", until it parks again.  So "[select" after a
+// completed send means: the request has been processed completely.  A condition that is polled, not a sleep.
+func (r *vrRun) waitIdle() string {
+	gid := <-r.gid
+	r.gid <- gid
+	if r.stackBuf == nil {
+		r.stackBuf = make([]byte, 1<<20)
+	}
+	until := time.Now().Add(r.deadline)
+	for {
+		s := string(r.stackBuf[:runtime.Stack(r.stackBuf, true)])
+		if i := strings.Index(s, "goroutine "+gid+" ["); i >= 0 {
+			if strings.HasPrefix(s[i+len("goroutine "+gid+" ["):], "select") {
+				return ""
+			}
+		}
+		select {
+		case msg := <-r.died:
+			r.died <- msg
+			return "panic"
+		default:
+		}
+		if time.Now().After(until) {
+			return "stall"
+		}
+		runtime.Gosched()
+	}
+}
+
 func (r *vrRun) fail(kind string, during string, a map[string]interface{}) {
 	aa := map[string]interface{}{"during": during}
 	for k, v := range a {
@@ -199,7 +245,7 @@ func vrParseChain(s string) uint32 {
 }
 
 func vrRunScenario(sc *vrScenario, deadline time.Duration) []vrLine {
-	r := &vrRun{sc: sc, deadline: deadline, names: map[string]vaa.ChainID{}, died: make(chan string, 1)}
+	r := &vrRun{sc: sc, deadline: deadline, names: map[string]vaa.ChainID{}, died: make(chan string, 1), gid: make(chan string, 1)}
 	r.clk = &vrClock{Mock: clock.NewMock()}
 	epoch := r.clk.Mock.Now()
 	r.reqC = make(chan *gossipv1.ObservationRequest) // unbuffered: a completed send means the router was in its select
@@ -234,6 +280,7 @@ func vrRunScenario(sc *vrScenario, deadline time.Duration) []vrLine {
 				r.died <- fmt.Sprintf("%v\n%s", p, buf)
 			}
 		}()
+		r.gid <- vrGoID()
 		handleReobservationRequests(ctx, r.clk, zap.NewNop(), r.reqC, r.chains)
 	}()
 	caps := map[string]interface{}{}
@@ -260,7 +307,12 @@ func vrRunScenario(sc *vrScenario, deadline time.Duration) []vrLine {
 			a := map[string]interface{}{"c": c, "tx": tx}
 			k := r.send(&gossipv1.ObservationRequest{ChainId: vrParseChain(c), TxHash: b})
 			if k == "" {
-				k = r.sync()
+				if vhStr(st.A, "sync") == "idle" {
+					a["sync"] = "idle"
+					k = r.waitIdle() // nothing is sent after the request: the next request really is the next one the router sees
+				} else {
+					k = r.sync()
+				}
 			}
 			if k != "" {
 				r.fail(k, "Request", a)
